@@ -13,7 +13,15 @@ def shared_nodes(rng):
              srv.fnode(["pub", "small.bin"], 100, cid="pub_small", mtime=t + 3), srv.dnode(["pub", "img"], t + 4),
              srv.fnode(["pub", "img", "a.bin"], 5000, cid="img_a", mtime=t + 5), srv.fnode(["pub", "img", "b.bin"], 66000, cid="img_b", mtime=t + 6),
              srv.dnode(["pub", "img", "d"], t + 7), srv.fnode(["pub", "img", "d", "c.bin"], 2049, cid="img_c", mtime=t + 8)]
+    # raw CD images of different sector sizes (2 MiB .. 848 MiB: the sector size is probed on every open)
+    for i, (ss, tag) in enumerate([(2048, "CD001"), (2352, "PSX"), (2448, "CD001"), (2336, "PSX")]):
+        off = 24 + 16 * ss + (8 if tag == "PSX" else 0)
+        nodes.append(srv.fnode(["pub", "cd%d.bin" % ss], 2 * 1024 * 1024 + 4096 * i, cid="cd%d" % ss, mtime=t + 20 + i, marks=[{"off": srv.pos(off), "tag": tag}]))
+    nodes.append(srv.fnode(["pub", "nocd.bin"], 2 * 1024 * 1024 + 77, cid="nocd", mtime=t + 30))
     return nodes
+
+
+CDS = ["cd2048", "cd2352", "cd2448", "cd2336", "nocd"]
 
 
 def session(rng, cid, n, aw):
@@ -21,9 +29,24 @@ def session(rng, cid, n, aw):
     sizes = {"big": 300000, "mid": 70000, "small": 100}
     cur = None
     k = 0
+    # some connections begin with a transfer that fails inside the copy loop (critical read of a directory handle)
+    # and die; everybody else starts after them
+    # (connection churn: they are sprinkled over the run of the others)
+    if cid % 4 == 0:
+        return [{"op": "BARRIER"}, {"op": "OPEN_FILE", "path": "/pub", "delayMs": rng.randrange(0, 2500)},
+                {"op": "READ_FILE_CRITICAL", "limit": 65536, "off": 0}, {"op": "BARRIER"}]
+    reqs.append({"op": "BARRIER"})
     for _ in range(n):
         r = rng.random()
-        if r < 0.18 or cur is None:
+        if r < 0.25:
+            # CD images: open (sector size probe) and sector reads, back to back
+            f = rng.choice(CDS)
+            reqs.append({"op": "OPEN_FILE", "path": "/pub/%s.bin" % f})
+            for _ in range(rng.randrange(1, 4)):
+                reqs.append({"op": "READ_CD_2048", "start": rng.randrange(0, 800), "count": rng.choice([1, 2, 8, 32])})
+            cur = None
+            continue
+        if r < 0.40 or cur is None:
             f = rng.choice(["big", "mid", "small", "viso"])
             if f == "viso":
                 reqs.append({"op": "OPEN_FILE", "path": "/***DVD***/pub/img"})
@@ -34,12 +57,13 @@ def session(rng, cid, n, aw):
         elif r < 0.6:
             off = rng.randrange(0, max(1, cur))
             reqs.append({"op": "READ_FILE", "limit": rng.choice([512, 4096, 65536, 65537, 140000]), "off": off})
-        elif r < 0.68:
-            off = rng.randrange(0, max(1, cur - 4096)) if cur > 4096 else 0
-            reqs.append({"op": "READ_FILE_CRITICAL", "limit": min(4096, max(0, cur - off)), "off": off})
-        elif r < 0.78:
+        elif r < 0.74:
+            want = rng.choice([4096, 65536, 70000, 131072])
+            off = rng.randrange(0, max(1, cur - want)) if cur > want else 0
+            reqs.append({"op": "READ_FILE_CRITICAL", "limit": min(want, max(0, cur - off)), "off": off})
+        elif r < 0.80:
             reqs += [{"op": "OPEN_DIR", "path": rng.choice(["/pub", "/pub/img", "/priv%d" % cid])}, {"op": "READ_DIR_ENTRY"}, {"op": "READ_DIR"}]
-        elif r < 0.84:
+        elif r < 0.86:
             reqs.append({"op": "STAT_FILE", "path": rng.choice(["/pub/big.bin", "/pub/img/d/c.bin", "/priv%d/up0.bin" % cid, "/nope"])})
         elif aw:
             k += 1
@@ -48,6 +72,12 @@ def session(rng, cid, n, aw):
                      {"op": "WRITE_FILE", "plen": rng.choice([0, 3, 65537]), "chunk": "c%d_%d_b" % (cid, k)}]
             if rng.random() < 0.3:
                 reqs += [{"op": "MKDIR", "path": "/priv%d/d%d" % (cid, k)}, {"op": "RMDIR", "path": "/priv%d/d%d" % (cid, k)}]
+    # hammer: back-to-back critical transfers of this connection's "own" shared file, all connections at once
+    f = ["big", "mid"][cid % 2]
+    reqs.append({"op": "OPEN_FILE", "path": "/pub/%s.bin" % f})
+    for _ in range(20):
+        want = rng.choice([65536, 70000, 131072]) if f == "big" else rng.choice([4096, 65536])
+        reqs.append({"op": "READ_FILE_CRITICAL", "limit": want, "off": rng.randrange(0, sizes[f] - want)})
     # everybody waits for everybody, then looks at its own subtree once more
     reqs += [{"op": "BARRIER"}, {"op": "STAT_FILE", "path": "/priv%d" % cid}, {"op": "GET_DIR_SIZE", "path": "/priv%d" % cid}]
     return reqs
@@ -74,13 +104,14 @@ def run(tier, seed, replay=None):
             common.tlc_must_pass(res, cfg)
             rep.add_tlc(res)
         worlds = []
-        for nconn in ([2, 8, 32] if not full else [2, 3, 8, 16, 32, 64]):
-            for rep_i in range(2 if not full else 6):
+        for nconn in ([3, 8, 32] if not full else [2, 3, 8, 16, 32, 64]):
+            for rep_i in range((1 if nconn < 32 else 2) if not full else 6):
                 aw = rep_i % 2 == 0
                 nodes = shared_nodes(rng) + [srv.dnode(["priv%d" % (c + 1)], 1470001000 + c) for c in range(nconn)]
                 conns = [{"id": c + 1, "reqs": session(rng, c + 1, 25 if not full else 40, aw)} for c in range(nconn)]
                 worlds.append({"name": "conc-%d-%d" % (nconn, rep_i), "aw": aw, "nodes": nodes, "views": [{"vk": "dvd", "p": ["pub", "img"]}],
-                               "conns": conns, "schedule": "conc", "quiesce": True, "bufferSize": rng.choice([0, 0, 4096, 100000])})
+                               "conns": conns, "schedule": "conc", "quiesce": True, "bufferSize": rng.choice([0, 0, 4096, 100000]),
+                               "writeDelayUs": rng.choice([0, 150, 400])})
         # GOMAXPROCS 1, 4, 16: the interleavings differ
         for procs in (["4"] if not full else ["1", "4", "16"]):
             os.environ["GOMAXPROCS"] = procs
@@ -88,14 +119,25 @@ def run(tier, seed, replay=None):
         # the same drivers on a -race build: a race report is an event outside the specification's alphabet
         os.environ["GOMAXPROCS"] = "8"
         rctx = srv.SrvCtx(scratch, race_harness, specdir, proto)
-        srv.run_and_validate(rctx, worlds[: (3 if not full else len(worlds))], rep)
+        if full:
+            rworlds = worlds
+        else:
+            # one 8-connection and one (shorter) 32-connection world: the race build is an order of magnitude slower
+            short = json.loads(json.dumps(worlds[-1]))
+            short["name"] += "-race"
+            for cj in short["conns"]:
+                cut = [i for i, r in enumerate(cj["reqs"]) if r["op"] == "BARRIER"]
+                if len(cut) >= 2 and cut[-1] - cut[0] > 24:
+                    cj["reqs"] = cj["reqs"][:cut[0] + 24] + cj["reqs"][cut[-1]:]
+            rworlds = [worlds[1], short]
+        srv.run_and_validate(rctx, rworlds, rep)
         os.environ.pop("GOMAXPROCS", None)
         rep.cov["rule"] = ("2..64 concurrent connections (goroutine each), seeded sessions over shared read-only files, the same generated image and "
                            "private writable subtrees, large transfers spanning many pooled buffers, buffer sizes {64 KiB, 4 KiB, 100000}; every "
                            "connection's event stream validated separately against the single-connection specification; the same on a -race build; "
                            "distinct_nontrivial = worlds whose every connection trace TLC accepted")
         rep.cov["distinct_nontrivial"] = rep.cov["traces_validated_against_impl"]
-        rep.cov["race_build_worlds"] = 3 if not full else len(worlds)
+        rep.cov["race_build_worlds"] = len(rworlds)
         rep.cov["samples"] = [{"world": worlds[0]["name"], "conn1": worlds[0]["conns"][0]["reqs"][:5]}]
         rep.assumptions += ["'free of data races' is observed with the Go race detector on the same drivers (an auxiliary channel of the conformance run, not decided by TLC)",
                             "connections only mutate their own private subtree; the shared part of the tree is static"]
